@@ -473,3 +473,472 @@ theorem relatedOut_unpaged (db : DB) (src pred at_ : Nat) (scope : List Nat) :
     simp [this.1]
 
 end Hub.OutScan
+
+namespace Hub.OutScan
+open Hub.Store
+
+/-! ## paging: a page is a window of the unpaged result
+
+The scan of a page (limit `n`, continuation key `sk`) makes the same `seen` / `added` decisions as the unpaged
+scan — while it fast-forwards to `sk` it marks live pairs as added without returning them — so the keys that
+produce a result are the same; the page returns those that come after `sk`, at most `n` of them, and stops
+with the key of its last result as continuation when another one follows. -/
+
+/-- does key `k` produce a result in state (seen, added)? -/
+def adds (pred : Nat) (seen : List (Nat × Nat × Nat)) (added : List (Nat × Nat)) (k : RefKey) : Bool :=
+  decide (predOK pred k.pred) && !seen.contains (triple k) && !added.contains (pair k) && !k.del
+
+/-- the general step on scanned keys, by cases (any limit, any start key, state not stopped). -/
+theorem outStep_cases (db : DB) (scope : List Nat) (pred at_ limit : Nat) (sk : Option RefKey) (s : OutSt) (k : RefKey)
+    (hst : s.stopped = false) (hs : inScope db scope k.ds = true) (ht : k.t ≤ at_) :
+    let s' := outStep db scope pred at_ limit sk s k
+    let reach := s.reached || decide (sk = some k)
+    if ¬ predOK pred k.pred ∨ triple k ∈ s.seen ∨ pair k ∈ s.added then
+      s'.seen = s.seen ∧ s'.added = s.added ∧ s'.results = s.results ∧ s'.stopped = false ∧ s'.cont = s.cont ∧ s'.reached = s.reached
+    else if k.del then
+      s'.seen = triple k :: s.seen ∧ s'.added = s.added ∧ s'.results = s.results ∧ s'.stopped = false ∧ s'.cont = s.cont ∧ s'.reached = reach
+    else if s.reached = false then
+      s'.seen = triple k :: s.seen ∧ s'.added = pair k :: s.added ∧ s'.results = s.results ∧ s'.stopped = false ∧ s'.cont = s.cont ∧ s'.reached = reach
+    else if limit ≠ 0 ∧ s.results.length ≥ limit then
+      s'.stopped = true ∧ s'.results = s.results ∧ s'.cont = s.cont
+    else
+      s'.seen = triple k :: s.seen ∧ s'.added = pair k :: s.added ∧ s'.results = s.results ++ [⟨k.pred, k.tgt, k.ds, k.t⟩]
+        ∧ s'.stopped = false ∧ s'.cont = some k ∧ s'.reached = true := by
+  intro s' reach
+  have hgt : ¬ (k.t > at_) := by omega
+  by_cases hp : predOK pred k.pred
+  · have hpp : ¬ (pred > 0 ∧ pred ≠ k.pred) := hp
+    by_cases hc : triple k ∈ s.seen ∨ pair k ∈ s.added
+    · rw [if_pos (Or.inr hc)]
+      have hc' : (k.pred, k.tgt, k.ds) ∈ s.seen ∨ (k.pred, k.tgt) ∈ s.added := hc
+      simp [s', outStep, hst, hs, hgt, hpp, hc']
+    · have hne : ¬ (¬ predOK pred k.pred ∨ triple k ∈ s.seen ∨ pair k ∈ s.added) := by
+        rintro (h | h)
+        · exact h hp
+        · exact hc h
+      rw [if_neg hne]
+      have hc' : ¬ ((k.pred, k.tgt, k.ds) ∈ s.seen ∨ (k.pred, k.tgt) ∈ s.added) := hc
+      by_cases hd : k.del = true
+      · rw [if_pos hd]
+        cases hr : s.reached <;> by_cases hk : sk = some k <;> simp [s', reach, outStep, hst, hs, hgt, hc', hpp, hd, hr, hk]
+      · rw [if_neg hd]
+        have hd' : k.del = false := by simpa using hd
+        by_cases hr : s.reached = false
+        · rw [if_pos hr]
+          by_cases hk : sk = some k <;> simp [s', reach, outStep, hst, hs, hgt, hc', hpp, hd', hr, hk]
+        · rw [if_neg hr]
+          have hr' : s.reached = true := by simpa using hr
+          by_cases hl : limit ≠ 0 ∧ s.results.length ≥ limit
+          · rw [if_pos hl]
+            simp [s', outStep, hst, hs, hgt, hc', hpp, hd', hr', hl.1, hl.2]
+          · rw [if_neg hl]
+            have hl' : ¬ (¬ limit = 0 ∧ limit ≤ s.results.length) := by simpa using hl
+            simp [s', outStep, hst, hs, hgt, hc', hpp, hd', hr', hl']
+  · rw [if_pos (Or.inl hp)]
+    have hpp : pred > 0 ∧ pred ≠ k.pred := by
+      unfold predOK at hp; exact Classical.not_not.1 hp
+    simp [s', outStep, hst, hs, hgt, hpp]
+
+/-- the keys that produce a result, in scan order, from bookkeeping state (seen, added). -/
+def resKeys (pred : Nat) : List (Nat × Nat × Nat) → List (Nat × Nat) → List RefKey → List RefKey
+  | _, _, [] => []
+  | seen, added, k :: K =>
+    if ¬ predOK pred k.pred ∨ triple k ∈ seen ∨ pair k ∈ added then resKeys pred seen added K
+    else if k.del then resKeys pred (triple k :: seen) added K
+    else k :: resKeys pred (triple k :: seen) (pair k :: added) K
+
+def toRes (k : RefKey) : QRes := ⟨k.pred, k.tgt, k.ds, k.t⟩
+
+/-- the scan with any limit and start key, over a list of keys. -/
+def scanL (db : DB) (scope : List Nat) (pred at_ limit : Nat) (sk : Option RefKey) (s : OutSt) (K : List RefKey) : OutSt :=
+  K.foldl (outStep db scope pred at_ limit sk) s
+
+theorem scanL_cons (db : DB) (scope : List Nat) (pred at_ limit : Nat) (sk : Option RefKey) (s : OutSt) (k : RefKey) (K : List RefKey) :
+    scanL db scope pred at_ limit sk s (k :: K) = scanL db scope pred at_ limit sk (outStep db scope pred at_ limit sk s k) K := by
+  simp [scanL]
+
+theorem scanL_stopped (db : DB) (scope : List Nat) (pred at_ limit : Nat) (sk : Option RefKey) :
+    ∀ (K : List RefKey) (s : OutSt), s.stopped = true → scanL db scope pred at_ limit sk s K = s
+  | [], _, _ => rfl
+  | k :: K, s, h => by
+    rw [scanL_cons]
+    have : outStep db scope pred at_ limit sk s k = s := by simp [outStep, h]
+    rw [this]; exact scanL_stopped db scope pred at_ limit sk K s h
+
+/-- keys of `resKeys` carry pairs that were not added before, pairwise distinct. -/
+theorem resKeys_pairs (pred : Nat) : ∀ (K : List RefKey) (seen : List (Nat × Nat × Nat)) (added : List (Nat × Nat)),
+    (∀ k ∈ resKeys pred seen added K, pair k ∉ added) ∧ ((resKeys pred seen added K).map pair).Nodup
+  | [], _, _ => by simp [resKeys]
+  | k :: K, seen, added => by
+    unfold resKeys
+    split
+    · exact resKeys_pairs pred K seen added
+    · split
+      · exact resKeys_pairs pred K (triple k :: seen) added
+      · rename_i hskip _
+        obtain ⟨i1, i2⟩ := resKeys_pairs pred K (triple k :: seen) (pair k :: added)
+        refine ⟨?_, ?_⟩
+        · intro x hx
+          rcases List.mem_cons.1 hx with rfl | hx
+          · exact fun h => hskip (Or.inr (Or.inr h))
+          · exact fun h => i1 x hx (List.mem_cons_of_mem _ h)
+        · simp only [List.map_cons, List.nodup_cons]
+          refine ⟨?_, i2⟩
+          intro hm
+          obtain ⟨x, hx, hxp⟩ := List.mem_map.1 hm
+          exact i1 x hx (by rw [hxp]; exact List.mem_cons_self)
+
+/-- **phase 2** — the start key has been reached: the scan returns the next result keys until the limit is hit. -/
+theorem scanL_reached (db : DB) (scope : List Nat) (pred at_ limit : Nat) (sk : Option RefKey) :
+    ∀ (K : List RefKey) (s : OutSt), s.stopped = false → s.reached = true → (∀ k ∈ K, inScope db scope k.ds = true ∧ k.t ≤ at_) →
+      (limit = 0 ∨ s.results.length ≤ limit) →
+      let R := resKeys pred s.seen s.added K
+      let m := if limit = 0 then R.length else limit - s.results.length
+      let s' := scanL db scope pred at_ limit sk s K
+      s'.results = s.results ++ (R.take m).map toRes
+      ∧ (s'.stopped = true ↔ limit ≠ 0 ∧ m < R.length)
+      ∧ s'.cont = (match (R.take m).getLast? with | some k => some k | none => s.cont)
+  | [], s, hst, _, _, _ => by simp [scanL, resKeys, hst]
+  | k :: K, s, hst, hre, hK, hlim => by
+    have hk := hK k List.mem_cons_self
+    have hrest : ∀ x ∈ K, inScope db scope x.ds = true ∧ x.t ≤ at_ := fun x hx => hK x (List.mem_cons_of_mem _ hx)
+    have hc := outStep_cases db scope pred at_ limit sk s k hst hk.1 hk.2
+    simp only at hc
+    rw [scanL_cons]
+    by_cases hskip : ¬ predOK pred k.pred ∨ triple k ∈ s.seen ∨ pair k ∈ s.added
+    · rw [if_pos hskip] at hc
+      obtain ⟨e1, e2, e3, e4, e5, e6⟩ := hc
+      have ih := scanL_reached db scope pred at_ limit sk K _ e4 (e6.trans hre) hrest (by rw [e3]; exact hlim)
+      simp only [e1, e2, e3, e5] at ih
+      simp only [resKeys, if_pos hskip]
+      exact ih
+    · rw [if_neg hskip] at hc
+      by_cases hd : k.del = true
+      · rw [if_pos hd] at hc
+        obtain ⟨e1, e2, e3, e4, e5, e6⟩ := hc
+        have hre' : (outStep db scope pred at_ limit sk s k).reached = true := by rw [e6, hre]; rfl
+        have ih := scanL_reached db scope pred at_ limit sk K _ e4 hre' hrest (by rw [e3]; exact hlim)
+        simp only [e1, e2, e3, e5] at ih
+        simp only [resKeys, if_neg hskip, if_pos hd]
+        exact ih
+      · rw [if_neg hd] at hc
+        have hnr : ¬ (s.reached = false) := by simp [hre]
+        rw [if_neg hnr] at hc
+        simp only [resKeys, if_neg hskip, if_neg hd]
+        by_cases hl : limit ≠ 0 ∧ s.results.length ≥ limit
+        · -- the limit is reached: this key would be one result too many
+          rw [if_pos hl] at hc
+          obtain ⟨e1, e2, e3⟩ := hc
+          rw [scanL_stopped db scope pred at_ limit sk K _ e1]
+          have hm : limit - s.results.length = 0 := by omega
+          have hl0 : ¬ limit = 0 := hl.1
+          simp only [hl0, if_false, hm, List.take_zero, List.map_nil, List.append_nil, List.getLast?_nil]
+          refine ⟨e2, ?_, e3⟩
+          simp [e1, hl0]
+        · rw [if_neg hl] at hc
+          obtain ⟨e1, e2, e3, e4, e5, e6⟩ := hc
+          have hlim' : limit = 0 ∨ (s.results ++ [toRes k]).length ≤ limit := by
+            by_cases h0 : limit = 0
+            · exact Or.inl h0
+            · right
+              simp only [List.length_append, List.length_singleton]
+              have : ¬ limit ≤ s.results.length := fun hh => hl ⟨h0, hh⟩
+              omega
+          have e3' : (outStep db scope pred at_ limit sk s k).results = s.results ++ [toRes k] := e3
+          have ih := scanL_reached db scope pred at_ limit sk K _ e4 e6 hrest (by rw [e3']; exact hlim')
+          simp only [e1, e2, e3', e5] at ih
+          obtain ⟨i1, i2, i3⟩ := ih
+          by_cases h0 : limit = 0
+          · simp only [h0, if_true, List.length_cons, List.take_succ_cons, List.map_cons] at i1 i2 i3 ⊢
+            refine ⟨by rw [i1]; simp, by simpa using i2, ?_⟩
+            rw [i3]
+            cases hR : (resKeys pred (triple k :: s.seen) (pair k :: s.added) K) with
+            | nil => simp
+            | cons x xs =>
+              obtain ⟨y, hy⟩ : ∃ y, (k :: x :: xs).getLast? = some y := ⟨_, List.getLast?_eq_some_getLast (List.cons_ne_nil _ _)⟩
+              obtain ⟨z, hz⟩ : ∃ z, (x :: xs).getLast? = some z := ⟨_, List.getLast?_eq_some_getLast (List.cons_ne_nil _ _)⟩
+              have : y = z := by
+                rw [List.getLast?_cons_cons] at hy; rw [hz] at hy; exact (Option.some.inj hy).symm
+              simp [hy, hz, this]
+          · have hlt : s.results.length < limit := by
+              have : ¬ limit ≤ s.results.length := fun hh => hl ⟨h0, hh⟩
+              omega
+            simp only [h0, if_false, List.length_append, List.length_singleton, List.length_cons, List.length_nil, Nat.zero_add] at i1 i2 i3 ⊢
+            have hm : limit - s.results.length = (limit - (s.results.length + 1)) + 1 := by omega
+            rw [hm, List.take_succ_cons, List.map_cons]
+            refine ⟨by rw [i1]; simp, ?_, ?_⟩
+            · rw [i2]; constructor
+              · rintro ⟨_, h⟩; exact ⟨h0, by omega⟩
+              · rintro ⟨_, h⟩; exact ⟨h0, by omega⟩
+            · rw [i3]
+              cases hT : (List.take (limit - (s.results.length + 1)) (resKeys pred (triple k :: s.seen) (pair k :: s.added) K)) with
+              | nil => simp
+              | cons x xs =>
+                obtain ⟨y, hy⟩ : ∃ y, (k :: x :: xs).getLast? = some y := ⟨_, List.getLast?_eq_some_getLast (List.cons_ne_nil _ _)⟩
+                obtain ⟨z, hz⟩ : ∃ z, (x :: xs).getLast? = some z := ⟨_, List.getLast?_eq_some_getLast (List.cons_ne_nil _ _)⟩
+                have : y = z := by
+                  rw [List.getLast?_cons_cons] at hy; rw [hz] at hy; exact (Option.some.inj hy).symm
+                simp [hy, hz, this]
+
+/-- what follows a key in a list of result keys. -/
+def afterKey (ks : RefKey) (R : List RefKey) : List RefKey := (R.dropWhile (fun k => k != ks)).drop 1
+
+theorem afterKey_cons_ne (ks k : RefKey) (R : List RefKey) (h : k ≠ ks) : afterKey ks (k :: R) = afterKey ks R := by
+  unfold afterKey
+  have : (k != ks) = true := by simpa using h
+  simp [List.dropWhile_cons, this]
+
+theorem afterKey_cons_self (ks : RefKey) (R : List RefKey) : afterKey ks (ks :: R) = R := by
+  unfold afterKey
+  simp [List.dropWhile_cons]
+
+theorem resKeys_live (pred : Nat) : ∀ (K : List RefKey) (seen : List (Nat × Nat × Nat)) (added : List (Nat × Nat)),
+    ∀ k ∈ resKeys pred seen added K, k.del = false
+  | [], _, _, k, h => by simp [resKeys] at h
+  | k0 :: K, seen, added, k, h => by
+    unfold resKeys at h
+    split at h
+    · exact resKeys_live pred K _ _ k h
+    · split at h
+      · exact resKeys_live pred K _ _ k h
+      · rename_i hd
+        rcases List.mem_cons.1 h with rfl | h
+        · simpa using hd
+        · exact resKeys_live pred K _ _ k h
+
+/-- **phase 1 + 2** — a page that starts after the continuation key `ks` (one of the result keys): the scan makes the
+same `seen` / `added` decisions while it fast-forwards, then returns the result keys after `ks` until the limit. -/
+theorem scanL_from (db : DB) (scope : List Nat) (pred at_ limit : Nat) (ks : RefKey) :
+    ∀ (K : List RefKey) (s : OutSt), s.stopped = false → s.reached = false → (∀ k ∈ K, inScope db scope k.ds = true ∧ k.t ≤ at_) →
+      (limit = 0 ∨ s.results.length ≤ limit) → ks ∈ resKeys pred s.seen s.added K →
+      let A := afterKey ks (resKeys pred s.seen s.added K)
+      let m := if limit = 0 then A.length else limit - s.results.length
+      let s' := scanL db scope pred at_ limit (some ks) s K
+      s'.results = s.results ++ (A.take m).map toRes
+      ∧ (s'.stopped = true ↔ limit ≠ 0 ∧ m < A.length)
+      ∧ s'.cont = (match (A.take m).getLast? with | some k => some k | none => s.cont)
+  | [], s, _, _, _, _, hin => by simp [resKeys] at hin
+  | k :: K, s, hst, hre, hK, hlim, hin => by
+    have hk := hK k List.mem_cons_self
+    have hrest : ∀ x ∈ K, inScope db scope x.ds = true ∧ x.t ≤ at_ := fun x hx => hK x (List.mem_cons_of_mem _ hx)
+    have hc := outStep_cases db scope pred at_ limit (some ks) s k hst hk.1 hk.2
+    simp only at hc
+    rw [scanL_cons]
+    by_cases hskip : ¬ predOK pred k.pred ∨ triple k ∈ s.seen ∨ pair k ∈ s.added
+    · rw [if_pos hskip] at hc
+      obtain ⟨e1, e2, e3, e4, e5, e6⟩ := hc
+      simp only [resKeys, if_pos hskip] at hin ⊢
+      have ih := scanL_from db scope pred at_ limit ks K _ e4 (e6.trans hre) hrest (by rw [e3]; exact hlim) (by rw [e1, e2]; exact hin)
+      simp only [e1, e2, e3, e5] at ih
+      exact ih
+    · rw [if_neg hskip] at hc
+      by_cases hd : k.del = true
+      · rw [if_pos hd] at hc
+        obtain ⟨e1, e2, e3, e4, e5, e6⟩ := hc
+        simp only [resKeys, if_neg hskip, if_pos hd] at hin ⊢
+        have hne : some ks ≠ some k := by
+          intro h; cases h
+          have := resKeys_live pred K _ _ ks hin
+          rw [this] at hd; cases hd
+        have hre' : (outStep db scope pred at_ limit (some ks) s k).reached = false := by
+          rw [e6, hre]; simp [hne]
+        have ih := scanL_from db scope pred at_ limit ks K _ e4 hre' hrest (by rw [e3]; exact hlim) (by rw [e1, e2]; exact hin)
+        simp only [e1, e2, e3, e5] at ih
+        exact ih
+      · rw [if_neg hd] at hc
+        rw [if_pos hre] at hc
+        obtain ⟨e1, e2, e3, e4, e5, e6⟩ := hc
+        simp only [resKeys, if_neg hskip, if_neg hd] at hin ⊢
+        by_cases hks : k = ks
+        · -- the continuation key itself: from here on results are returned
+          subst hks
+          rw [afterKey_cons_self]
+          have hre' : (outStep db scope pred at_ limit (some k) s k).reached = true := by rw [e6, hre]; simp
+          have p2 := scanL_reached db scope pred at_ limit (some k) K _ e4 hre' hrest (by rw [e3]; exact hlim)
+          simp only [e1, e2, e3, e5] at p2
+          exact p2
+        · rw [afterKey_cons_ne ks k _ hks]
+          have hin' : ks ∈ resKeys pred (triple k :: s.seen) (pair k :: s.added) K := by
+            rcases List.mem_cons.1 hin with h | h
+            · exact absurd h.symm hks
+            · exact h
+          have hne : ¬ (some ks = some k) := by intro h; cases h; exact hks rfl
+          have hre' : (outStep db scope pred at_ limit (some ks) s k).reached = false := by rw [e6, hre]; simp [hne]
+          have ih := scanL_from db scope pred at_ limit ks K _ e4 hre' hrest (by rw [e3]; exact hlim) (by rw [e1, e2]; exact hin')
+          simp only [e1, e2, e3, e5] at ih
+          exact ih
+
+/-- the result keys of the query (unpaged bookkeeping from the empty state over the sorted scanned keys). -/
+def resultKeys (db : DB) (src pred at_ : Nat) (scope : List Nat) : List RefKey :=
+  resKeys pred [] [] (sortBy (fun a b => lexLt b.outFields a.outFields) (scanned db src at_ scope))
+
+/-- **a page of the outgoing query is a window of the unpaged result** (T-C03-3): with limit `n` the first page
+returns the first `n` result keys; a page continued from the key of the last result of the previous page returns
+the next `n`; the continuation is the key of the page's last result exactly when more results follow
+(`n = 0`: everything, no continuation). -/
+theorem relatedOut_page (db : DB) (src pred at_ n : Nat) (scope : List Nat) (sk : Option RefKey)
+    (hsk : ∀ ks, sk = some ks → ks ∈ resultKeys db src pred at_ scope) :
+    let R := resultKeys db src pred at_ scope
+    let A := match sk with | none => R | some ks => afterKey ks R
+    let m := if n = 0 then A.length else n
+    relatedOut db src pred at_ n scope sk =
+      ((A.take m).map toRes, if n ≠ 0 ∧ m < A.length then (A.take m).getLast? else none) := by
+  intro R A m
+  let K := sortBy (fun a b => lexLt b.outFields a.outFields) (scanned db src at_ scope)
+  have hK : ∀ k ∈ K, inScope db scope k.ds = true ∧ k.t ≤ at_ := by
+    intro k hk
+    have := mem_scanned.1 ((Hub.SortPerm.mem_sortBy _ _ k).1 hk); exact ⟨this.2.2.1, this.2.1⟩
+  show ((scanL db scope pred at_ n sk { reached := sk.isNone } K).results,
+        if (scanL db scope pred at_ n sk { reached := sk.isNone } K).stopped then (scanL db scope pred at_ n sk { reached := sk.isNone } K).cont else none) = _
+  cases sk with
+  | none =>
+    have p2 := scanL_reached db scope pred at_ n none K { reached := true } rfl rfl hK (by simp)
+    simp only [List.length_nil, Nat.sub_zero, List.nil_append] at p2
+    obtain ⟨r1, r2, r3⟩ := p2
+    have hm : m = (if n = 0 then R.length else n) := rfl
+    simp only [Option.isNone_none]
+    rw [r1]
+    refine Prod.ext rfl ?_
+    simp only
+    by_cases hstop : n ≠ 0 ∧ m < R.length
+    · rw [if_pos hstop, if_pos (r2.2 hstop), r3]
+      cases hl : (List.take m R).getLast? with
+      | some k =>
+        have hl' : (List.take (if n = 0 then (resKeys pred [] [] K).length else n) (resKeys pred [] [] K)).getLast? = some k := hl
+        rw [hl']
+      | none =>
+        exfalso
+        have : List.take m R = [] := List.getLast?_eq_none_iff.1 hl
+        have hlen := congrArg List.length this
+        simp only [List.length_take, List.length_nil] at hlen
+        have : 0 < n := Nat.pos_of_ne_zero hstop.1
+        simp only [hm, if_neg hstop.1] at hlen hstop
+        omega
+    · rw [if_neg hstop]
+      have : ¬ ((scanL db scope pred at_ n none { reached := true } K).stopped = true) := fun h => hstop (r2.1 h)
+      simp [this]
+  | some ks =>
+    have hin := hsk ks rfl
+    have p := scanL_from db scope pred at_ n ks K { reached := false } rfl rfl hK (by simp) hin
+    simp only [List.length_nil, Nat.sub_zero, List.nil_append] at p
+    obtain ⟨r1, r2, r3⟩ := p
+    have hm : m = (if n = 0 then (afterKey ks R).length else n) := rfl
+    simp only [Option.isNone_some]
+    rw [r1]
+    refine Prod.ext rfl ?_
+    simp only
+    by_cases hstop : n ≠ 0 ∧ m < (afterKey ks R).length
+    · rw [if_pos hstop, if_pos (r2.2 hstop), r3]
+      cases hl : (List.take m (afterKey ks R)).getLast? with
+      | some k =>
+        have hl' : (List.take (if n = 0 then (afterKey ks (resKeys pred [] [] K)).length else n) (afterKey ks (resKeys pred [] [] K))).getLast? = some k := hl
+        rw [hl']
+      | none =>
+        exfalso
+        have : List.take m (afterKey ks R) = [] := List.getLast?_eq_none_iff.1 hl
+        have hlen := congrArg List.length this
+        simp only [List.length_take, List.length_nil] at hlen
+        have : 0 < n := Nat.pos_of_ne_zero hstop.1
+        simp only [hm, if_neg hstop.1] at hlen hstop
+        omega
+    · rw [if_neg hstop]
+      have : ¬ ((scanL db scope pred at_ n (some ks) { reached := false } K).stopped = true) := fun h => hstop (r2.1 h)
+      simp [this]
+
+/-! ## following the continuations tiles the unpaged result -/
+
+theorem afterKey_getElem : ∀ (R : List RefKey), R.Nodup → ∀ (i : Nat) (h : i < R.length), afterKey R[i] R = R.drop (i + 1)
+  | [], _, i, h => by simp at h
+  | x :: R, hnd, 0, _ => by simp [afterKey_cons_self]
+  | x :: R, hnd, i + 1, h => by
+    have hnd' := List.nodup_cons.1 hnd
+    have hi : i < R.length := by simpa using h
+    have hne : x ≠ R[i] := fun e => hnd'.1 (e ▸ List.getElem_mem hi)
+    simp only [List.getElem_cons_succ, List.drop_succ_cons]
+    rw [afterKey_cons_ne _ _ _ hne]
+    exact afterKey_getElem R hnd'.2 i hi
+
+theorem nodup_of_map_nodup {α β : Type} (f : α → β) : ∀ (l : List α), (l.map f).Nodup → l.Nodup
+  | [], _ => List.nodup_nil
+  | x :: xs, h => by
+    simp only [List.map_cons, List.nodup_cons] at h ⊢
+    exact ⟨fun hx => h.1 (List.mem_map.2 ⟨x, hx, rfl⟩), nodup_of_map_nodup f xs h.2⟩
+
+theorem resultKeys_nodup (db : DB) (src pred at_ : Nat) (scope : List Nat) : (resultKeys db src pred at_ scope).Nodup :=
+  nodup_of_map_nodup pair _ (resKeys_pairs pred _ [] []).2
+
+/-- the query followed through its continuations (at most `fuel` pages). -/
+def allPages (db : DB) (src pred at_ n : Nat) (scope : List Nat) : Nat → Option RefKey → List QRes
+  | 0, _ => []
+  | fuel + 1, sk =>
+    let r := relatedOut db src pred at_ n scope sk
+    r.1 ++ (match r.2 with | some k => allPages db src pred at_ n scope fuel (some k) | none => [])
+
+theorem allPages_tile (db : DB) (src pred at_ n : Nat) (scope : List Nat) (hn : 0 < n) :
+    let R := resultKeys db src pred at_ scope
+    ∀ (fuel i : Nat), i ≤ R.length → R.length - i < fuel →
+      allPages db src pred at_ n scope fuel (if i = 0 then none else R[i - 1]?) = (R.drop i).map toRes := by
+  intro R fuel
+  induction fuel with
+  | zero => intro i _ h; omega
+  | succ fuel ih =>
+    intro i hi hf
+    have hnd := resultKeys_nodup db src pred at_ scope
+    -- what the page starting here returns
+    have hA : (match (if i = 0 then none else R[i - 1]?) with | none => R | some ks => afterKey ks R) = R.drop i := by
+      by_cases h0 : i = 0
+      · simp [h0]
+      · have hlt : i - 1 < R.length := by omega
+        simp only [h0, if_false, List.getElem?_eq_getElem hlt]
+        rw [afterKey_getElem R hnd (i - 1) hlt]
+        congr 1; omega
+    have hsk : ∀ ks, (if i = 0 then none else R[i - 1]?) = some ks → ks ∈ R := by
+      intro ks h
+      by_cases h0 : i = 0
+      · simp [h0] at h
+      · simp only [h0, if_false] at h
+        exact List.mem_of_getElem? h
+    have hp := relatedOut_page db src pred at_ n scope _ hsk
+    simp only at hp
+    rw [hA] at hp
+    have hn0 : n ≠ 0 := by omega
+    simp only [hn0, if_false, ne_eq, not_false_eq_true, true_and] at hp
+    unfold allPages
+    simp only [hp]
+    by_cases hmore : n < (R.drop i).length
+    · -- more results follow: the continuation is the key of the page's last result
+      rw [if_pos hmore]
+      have hlen : (R.drop i).length = R.length - i := List.length_drop
+      have hlast : (List.take n (R.drop i)).getLast? = R[i + n - 1]? := by
+        rw [List.getLast?_eq_getElem?, List.length_take, Nat.min_eq_left (Nat.le_of_lt hmore), List.getElem?_take]
+        have : n - 1 < n := by omega
+        simp only [this, if_true, List.getElem?_drop]
+        congr 1; omega
+      have hsome : ∃ k, R[i + n - 1]? = some k := ⟨R[i + n - 1]'(by omega), List.getElem?_eq_getElem (by omega)⟩
+      obtain ⟨k, hk⟩ := hsome
+      rw [hlast, hk]
+      simp only
+      have ih' := ih (i + n) (by omega) (by omega)
+      have hne : i + n ≠ 0 := by omega
+      simp only [hne, if_false, hk] at ih'
+      rw [ih', ← List.map_append]
+      congr 1
+      rw [← List.drop_drop, List.take_append_drop]
+    · rw [if_neg hmore]
+      simp only [List.append_nil]
+      rw [List.take_of_length_le (by omega)]
+
+/-- **T-C03-3: paging returns the same result, nothing missing and nothing twice.** For every limit `n ≥ 1`, following
+the continuation tokens of the outgoing query and concatenating the pages gives exactly the list the unpaged query
+returns (whose pairs are pairwise distinct, `relatedOut_unpaged`). -/
+theorem pages_eq_unpaged (db : DB) (src pred at_ n : Nat) (scope : List Nat) (hn : 0 < n) :
+    allPages db src pred at_ n scope ((resultKeys db src pred at_ scope).length + 1) none
+      = (relatedOut db src pred at_ 0 scope none).1 := by
+  have h := allPages_tile db src pred at_ n scope hn ((resultKeys db src pred at_ scope).length + 1) 0 (Nat.zero_le _) (by omega)
+  simp only [if_true, List.drop_zero] at h
+  rw [h]
+  have hp := relatedOut_page db src pred at_ 0 scope none (by intro ks h; cases h)
+  simp only [if_true, List.take_length] at hp
+  rw [hp]
+
+end Hub.OutScan
